@@ -57,8 +57,25 @@ pub fn minimise_modules(mods: &[(String, String)], pred: &mut dyn FnMut(&[(Strin
   let mut budget = budget;
   // 1. drop whole modules
   let mut cur = ddmin_list(mods.to_vec(), &mut |c| !c.is_empty() && pred(c), &mut budget);
-  // 2. per module: lines, then tokens
+  // 2. per module: top-level declarations, then members, then lines, then tokens
   for k in 0..cur.len() {
+    for level in 0..2 {
+      let parts = decl_chunks(&cur[k].1, level);
+      if parts.len() < 2 {
+        continue;
+      }
+      let base = cur.clone();
+      let kept = ddmin_list(
+        parts,
+        &mut |c| {
+          let mut m = base.clone();
+          m[k].1 = c.join("\n");
+          pred(&m)
+        },
+        &mut budget,
+      );
+      cur[k].1 = kept.join("\n");
+    }
     let lines: Vec<String> = cur[k].1.split('\n').map(|s| s.to_string()).collect();
     let kept = {
       let base = cur.clone();
@@ -92,4 +109,33 @@ pub fn minimise_modules(mods: &[(String, String)], pred: &mut dyn FnMut(&[(Strin
     }
   }
   cur
+}
+
+/// split a module text into removable items: level 0 = imports and classes/interfaces,
+/// level 1 = members (class headers and closing braces stay separate items)
+pub fn decl_chunks(text: &str, level: usize) -> Vec<String> {
+  let lines: Vec<&str> = text.split('\n').collect();
+  let mut out: Vec<String> = Vec::new();
+  let mut cur: Vec<&str> = Vec::new();
+  let is_member = |l: &str| {
+    let t = l.trim_start();
+    l.starts_with(' ') && (t.starts_with("function ") || t.starts_with("method ") || t.starts_with("private function ") || t.starts_with("private method "))
+  };
+  let is_class = |l: &str| l.starts_with("class ") || l.starts_with("interface ") || l.starts_with("private class ") || l.starts_with("private interface ");
+  for l in lines {
+    let start = if level == 0 { is_class(l) || l.starts_with("import ") } else { is_class(l) || is_member(l) || l == "}" || l.starts_with("import ") };
+    if start && !cur.is_empty() {
+      out.push(cur.join("\n"));
+      cur.clear();
+    }
+    cur.push(l);
+    if level == 1 && (is_class(l) && l.trim_end().ends_with('{') || l == "}") {
+      out.push(cur.join("\n"));
+      cur.clear();
+    }
+  }
+  if !cur.is_empty() {
+    out.push(cur.join("\n"));
+  }
+  out
 }
